@@ -231,7 +231,11 @@ def oracle_c13(res, i):
         a = act[0]
         over = int(a[2]) + 1 >= maxdata
         age = now - born.get(a[0], now)
-        if over and age >= 250 and 'switched' not in out:
+        armed = False
+        for j in range(i):
+            t = res['script'][j].split()[0]
+            armed = True if (t == 'fault' and 'pause:' not in res['script'][j]) else (False if t == 'clearfaults' else armed)
+        if over and age >= 250 and 'switched' not in out and not armed:
             return (f'MISMATCH no rotation: active blob {a[0]} holds {int(a[2]) + 1} >= {maxdata} records, '
                     f'is older than the debounce interval, and the write did not lead to a switch')
     return None
@@ -556,7 +560,7 @@ def oracle_c12(res, i):
             pc = res['script'][j].split()[0]
             if pc == 'fsync' and res['impl'][j] == 'ok' and act and int(act[0][3]) != 0:
                 return f'MISMATCH {act[0][3]} un-synced bytes remain after an explicit fsyncdata'
-            if pc == 'close_active' and res['impl'][j] == 'ok':
+            if (pc == 'close_active' and res['impl'][j] == 'ok') or (pc == 'closerace' and res['impl'][j].startswith('close=ok')):
                 # the blob that was active before must be fully synced now
                 for k in range(j - 1, -1, -1):
                     if res['impl'][k].startswith('#fstates'):
@@ -611,7 +615,8 @@ def sync_features(lines):
 PROPS['C12'] = dict(
     gen=lambda rng, tier: (gen.sync_scenario if rng.random() < 0.65 else
                            gen.sync_rotation_scenario if rng.random() < 0.4 else
-                           gen.sync_fault_scenario if rng.random() < 0.6 else gen.sync_stall_scenario)(rng, size=tier),
+                           gen.sync_fault_scenario if rng.random() < 0.5 else
+                           gen.sync_stall_scenario if rng.random() < 0.6 else gen.sync_closerace_scenario)(rng, size=tier),
     p_cmds={'trace', 'fstates', 'fsync', 'close', 'open', 'dirty'},
     impl_only_cmds={'fstates'}, impl_only_if_ct={'trace'},   # ct: markers into several closed blobs are issued concurrently
     oracle_cmds={'states'}, py_oracle=oracle_c12,
